@@ -855,7 +855,10 @@ def parse_tokens(s):
 def all_cases(ctx, thorough=False):
     period, _ = extracted_constants()
     cases = corpus_cases()
-    cases += depth_cases(ctx, [10, 50] if not thorough else [10, 50, 200], window=2)
+    # configured limits on both sides of the default, next to powers of two and multiples of the default (an allocation
+    # that grows lazily or in steps must still enforce the configured number exactly), plus two limits drawn per run
+    limits = [5, 10, 50, 51, 64, 99, 100, 101, 130] + sorted({ctx.rng.randint(52, 160) for _ in range(2)})
+    cases += depth_cases(ctx, limits if not thorough else limits + [200, 257], window=2)
     cases += construct_cases(ctx, period)
     cases += entry_cases(ctx, period)
     cases += tick_cases(ctx, 60 if not thorough else 1500, 16 if not thorough else 40, period)
